@@ -24,7 +24,8 @@ CONSTANTS Types,      \* the wire types decoded from the network
           MaxDepth, MaxIdx
 
 Kinds == {"delete", "duplicate", "truncate1", "len_plus1", "len_minus1", "flip_first", "flip_last",
-          "varint_zero", "varint_plus1", "varint_max", "swap_next", "cut_here", "empty_payload"}
+          "varint_zero", "varint_plus1", "varint_max", "swap_next", "cut_here", "empty_payload",
+          "extend32", "shrink32"}      \* a 32-byte segment more / less (audit paths, hashes)
 Paths == UNION {[1..d -> 1..MaxIdx] : d \in 1..MaxDepth}
 
 \* ---- the contract
